@@ -201,7 +201,7 @@ func NewWorker(p *Program, opt Options) (*Worker, error) {
 		w.Opt.SolverKind = smt.DefaultZ3()
 	}
 	if w.Opt.SolverTimeoutMs == 0 {
-		w.Opt.SolverTimeoutMs = 20000
+		w.Opt.SolverTimeoutMs = 60000
 	}
 	w.intr = intrinsics()
 	w.covered = map[string]bool{}
